@@ -427,8 +427,6 @@ stack::uptr
 op_merge::next (scon &sc) const
 {
   state &st = sc.get <state> (m_ll);
-  if (st.m_done)
-    return nullptr;
 
   while (! st.m_done)
     {
@@ -438,6 +436,12 @@ op_merge::next (scon &sc) const
 	st.m_idx = 0;
     }
 
+  // The upstream is drained.  But if this ALT sits in a sub-expression
+  // (closure body, let body, OR branch, formatting string, ...), the
+  // origin will be fed another stack later.  So forget that we are
+  // done, lest the ALT never yields anything again.
+  st.m_done = false;
+  st.m_idx = 0;
   return nullptr;
 }
 
